@@ -4,10 +4,14 @@ def R(defs):
     return {"name": "fe_chunking_replay", "harness": H, "entry": "r_fe_chunking", "defines": defs, "native_replay": True, "canary": False, "allow_no_body": ["*"], "unwind": 14,
             "native_sources": "ALL", "native_exclude": ["fe_interface.c"]}
 GROUPS = [
-    dict(name="fe_chunking_5_2", harness=H, entry="r_fe_chunking", defines=["FS=5", "SH=2", "NS=11"], allow_no_body=["*"], unwind=14, replay=R(["FS=5", "SH=2", "NS=11"]),
-         bounded="geometry frame_size 5 / frame_shift 2 (size > 2*shift, like the shipped 410/160), 11 concrete distinct samples, <= 3 chunks of symbolic sizes, symbolic output limit 1..3 per call, int16 and float32 input"),
-    dict(name="fe_chunking_4_2", harness=H, entry="r_fe_chunking", defines=["FS=4", "SH=2", "NS=10"], allow_no_body=["*"], unwind=14, replay=R(["FS=4", "SH=2", "NS=10"]), tiers=("thorough",),
+    dict(name="fe_chunking_5_2", harness=H, entry="r_fe_chunking", defines=["FS=5", "SH=2", "NS=9", "NCHUNK=2"], allow_no_body=["*"], unwind=12, replay=R(["FS=5", "SH=2", "NS=9", "NCHUNK=2"]),
+         unwindset="ssw_memcpy.0:24,ssw_memmove.0:24,ssw_memmove.1:24", backends=[["--sat-solver", "cadical"]], timeout={"quick": 900, "thorough": 1800},
+         bounded="geometry frame_size 5 / frame_shift 2 (size > 2*shift, like the shipped 410/160), 9 concrete distinct samples, 2 chunks of symbolic sizes, symbolic output limit 1..3 per call, int16 and float32 input"),
+    dict(name="fe_chunking_5_2_3chunks", harness=H, entry="r_fe_chunking", defines=["FS=5", "SH=2", "NS=11", "NCHUNK=3"], allow_no_body=["*"], unwind=14, replay=R(["FS=5", "SH=2", "NS=11", "NCHUNK=3"]),
+         unwindset="ssw_memcpy.0:24,ssw_memmove.0:24,ssw_memmove.1:24", backends=[["--sat-solver", "cadical"]], timeout={"quick": 900, "thorough": 2400}, tiers=("thorough",),
+         bounded="geometry 5 / 2, 11 samples, 3 chunks"),
+    dict(name="fe_chunking_4_2", harness=H, entry="r_fe_chunking", defines=["FS=4", "SH=2", "NS=10"], allow_no_body=["*"], unwind=14, replay=R(["FS=4", "SH=2", "NS=10"]), tiers=("thorough",), unwindset="ssw_memcpy.0:24,ssw_memmove.0:24,ssw_memmove.1:24", backends=[["--sat-solver", "cadical"]], timeout={"quick": 900, "thorough": 2400},
          bounded="geometry 4 / 2, 10 samples"),
-    dict(name="fe_chunking_7_3", harness=H, entry="r_fe_chunking", defines=["FS=7", "SH=3", "NS=14"], allow_no_body=["*"], unwind=18, replay=R(["FS=7", "SH=3", "NS=14"]), tiers=("thorough",),
+    dict(name="fe_chunking_7_3", harness=H, entry="r_fe_chunking", defines=["FS=7", "SH=3", "NS=14"], allow_no_body=["*"], unwind=18, replay=R(["FS=7", "SH=3", "NS=14"]), tiers=("thorough",), unwindset="ssw_memcpy.0:32,ssw_memmove.0:32,ssw_memmove.1:32", backends=[["--sat-solver", "cadical"]], timeout={"quick": 900, "thorough": 2400},
          bounded="geometry 7 / 3, 14 samples"),
 ]
